@@ -1,7 +1,8 @@
 (** C19 — property theorems.  This file contains nothing but statements closed by [exact]. *)
 From Coq Require Import ZArith QArith.
-From Coq Require Import Qminmax List.
-From KV Require Import Base.IEEE Base.Outcome Base.Num C19.Model C19.ProofsTime C19.ProofsEasing C19.ProofsGuards C19.ModelHandle C19.ProofsHandle.
+From Coq Require Import Qminmax List Reals.
+From Flocq Require Import Core IEEE754.BinarySingleNaN.
+From KV Require Import Base.IEEE Base.Outcome Base.Num C19.Model C19.ProofsTime C19.ProofsEasing C19.ProofsGuards C19.ModelHandle C19.ProofsHandle C19.ModelF32 C19.ModelUnitsR C19.ProofsUnits.
 Local Open Scope Q_scope.
 
 (** Adding a non-negative amount: the fraction stays in [0,1), ticks + fraction grows by
@@ -116,3 +117,86 @@ Theorem handle_time_before_next_tick :
     value h < value (next_tick h) /\ ct_cmp h (next_tick h) = Some Lt /\
     ct_cmp h (next_tick h) = Some (value h ?= value (next_tick h)).
 Proof. exact handle_time_before_next_tick_l. Qed.
+
+(** Decibels ([Decibels::as_amplitude] read over the reals, [ModelUnitsR]): 0 dB is 1, -60 dB or less is 0,
+    otherwise it IS 10^(dB/20) — including at 0 dB, where the shortcut and the formula agree. *)
+Theorem decibels_special_values_R :
+  (db_amp_R 0 = 1 /\ (forall db, db <= -60 -> db_amp_R db = 0) /\
+   (forall db, -60 < db -> db_amp_R db = Rpower 10 (db / 20)) /\
+   (forall db, -60 < db -> db_amp_R (db + 20) = 10 * db_amp_R db))%R.
+Proof. exact (conj db_amp_zero_l (conj db_amp_silence_l (conj db_amp_agrees_l db_amp_plus20_l))). Qed.
+
+(** ... and it is monotone on the whole line (across both special cases), strictly above silence, and in
+    [0, 1] up to 0 dB. *)
+Theorem decibels_monotone_R :
+  ((forall a b, a <= b -> db_amp_R a <= db_amp_R b) /\
+   (forall a b, -60 < a -> a < b -> db_amp_R a < db_amp_R b) /\
+   (forall db, db <= 0 -> 0 <= db_amp_R db <= 1))%R.
+Proof. exact (conj db_amp_monotone_l (conj db_amp_strict_l db_amp_range_l)). Qed.
+
+(** The binary32 transcription that is compared bit for bit with the code takes, at every finite argument,
+    the branch the real-number reading takes, whatever [powf] is linked ([powf10 x] = [10.0f32.powf(x)]);
+    the division by 20 never overflows and is correctly rounded. *)
+Theorem decibels_branches_b32 :
+  forall (powf10 : f32 -> f32) (db : f32), is_finite db = true ->
+    (B2R db = 0 /\ db_as_amplitude powf10 db = Z32 1 /\ db_amp_R (B2R db) = 1)%R \/
+    (B2R db <= -60 /\ db_as_amplitude powf10 db = Z32 0 /\ db_amp_R (B2R db) = 0)%R \/
+    (-60 < B2R db /\ db_as_amplitude powf10 db = powf10 (div32 db (Z32 20)) /\
+     B2R (div32 db (Z32 20)) = round radix2 (SpecFloat.fexp 24 128) (round_mode mode_NE) (B2R db / 20) /\
+     db_amp_R (B2R db) = Rpower 10 (B2R db / 20))%R.
+Proof. exact db32_branches. Qed.
+
+(** ... and it is monotone in binary32 for EVERY libm [powf] that is itself non-decreasing, non-negative and
+    has 10^0 = 1 (its result may be +inf): the two shortcuts and the rounded division cannot break the order. *)
+Theorem decibels_monotone_b32 :
+  forall powf10 : f32 -> f32,
+    (forall x y, is_finite x = true -> is_finite y = true -> (B2R x <= B2R y)%R -> le32 (powf10 x) (powf10 y) = true) ->
+    (forall x, is_finite x = true -> le32 (Z32 0) (powf10 x) = true) ->
+    powf10 (Z32 0) = Z32 1 ->
+    forall a b, is_finite a = true -> is_finite b = true -> (B2R a <= B2R b)%R ->
+      le32 (db_as_amplitude powf10 a) (db_as_amplitude powf10 b) = true.
+Proof. exact db32_monotone. Qed.
+(** (the three hypotheses are satisfiable) *)
+Theorem decibels_monotone_b32_nonvacuous :
+  (forall x y, is_finite x = true -> is_finite y = true -> (B2R x <= B2R y)%R -> le32 (powf10_step x) (powf10_step y) = true) /\
+  (forall x, is_finite x = true -> le32 (Z32 0) (powf10_step x) = true) /\ powf10_step (Z32 0) = Z32 1.
+Proof. exact powf10_step_ok. Qed.
+
+(** Panning ([Frame::panned] over the reals): centre keeps the frame — the shortcut and the formula it
+    short-cuts agree there, so there is no jump at the centre —, the total power of a centred signal (the
+    same value in both channels) is the same for every panning, hard left / right (and beyond: clamped)
+    silence the other channel, and moving right never raises the left gain nor lowers the right one. *)
+Theorem panning_centre_level_R :
+  forall l r : R, panned_R l r 0 = (l, r) /\ panned_formula_R l r 0 = (l, r).
+Proof. exact panned_centre_l. Qed.
+Theorem panning_total_power_R :
+  forall x p : R, power2 (panned_R x x p) = power2 (x, x).
+Proof. exact panned_power_l. Qed.
+Theorem panning_extremes_R :
+  (forall l r p : R, (p <= -1)%R -> panned_R l r p = ((l * sqrt 2)%R, 0%R)) /\
+  (forall l r p : R, (1 <= p)%R -> panned_R l r p = (0%R, (r * sqrt 2)%R)) /\
+  (forall p q : R, (p <= q)%R ->
+     (fst (panned_R 1 1 q) <= fst (panned_R 1 1 p))%R /\ (snd (panned_R 1 1 p) <= snd (panned_R 1 1 q))%R).
+Proof. exact (conj panned_hard_left_l (conj panned_hard_right_l panned_gains_monotone_l)). Qed.
+Theorem panning_centre_b32 :
+  forall l r : f32, panned l r (Z32 0) = (l, r) /\ panned l r (neg32 (Z32 0)) = (l, r).
+Proof. exact panned32_centre. Qed.
+
+(** Semitones: twelve double the rate (and every further twelve double it again), zero leave it, the
+    conversion is monotone and turns sums into products; in binary64 the argument handed to [powf] for
+    +-12 / 0 / 24 semitones is exactly +-1 / 0 / 2. *)
+Theorem semitones_octave_R :
+  (semitones_to_rate_R 12 = 2 /\ semitones_to_rate_R 0 = 1 /\
+   (forall s, semitones_to_rate_R (s + 12) = 2 * semitones_to_rate_R s) /\
+   (forall s, semitones_to_rate_R (s - 12) = semitones_to_rate_R s / 2) /\
+   (forall a b, a <= b -> semitones_to_rate_R a <= semitones_to_rate_R b) /\
+   (forall a b, semitones_to_rate_R (a + b) = semitones_to_rate_R a * semitones_to_rate_R b))%R.
+Proof.
+  exact (conj semitones_octave_l (conj semitones_zero_l (conj semitones_plus12_l (conj semitones_minus12_l
+          (conj semitones_monotone_l semitones_additive_l))))).
+Qed.
+Theorem semitones_octave_b64 :
+  forall powf2 : f64 -> f64,
+    semitones_to_rate powf2 (Z64 12) = powf2 (Z64 1) /\ semitones_to_rate powf2 (Z64 0) = powf2 (Z64 0) /\
+    semitones_to_rate powf2 (Z64 (-12)) = powf2 (Z64 (-1)) /\ semitones_to_rate powf2 (Z64 24) = powf2 (Z64 2).
+Proof. exact semitones_b64_octave. Qed.
